@@ -62,7 +62,8 @@ def floors(tier):
     return {'evaluations': 40000, 'distinct_nontrivial': 20000, 'outputs_parsed_strictly': 30000,
             'ascii_checked': 10000, 'fail_policy_decided': 5000, 'fail_policy_raised': 200,
             'histkeys:scheme': 5, 'histkeys:ruleset': 2, 'histkeys:policy': 5, 'k1_witness_checked': 5,
-            'codepoints_probed_alone': 1000, 'module_function_calls': 5000, 'module_fail_policy_raised': 100}
+            'codepoints_probed_alone': 1000, 'module_function_calls': 5000, 'module_fail_policy_raised': 100,
+            'legacy_function_calls': 5000, 'legacy_fail_raised': 500, 'histkeys:legacy_flags': 16}
 
 
 def setup(rec):
@@ -213,7 +214,59 @@ def evaluate_module(s, scheme, policy, non_ascii_only, rec):
     return None
 
 
+def evaluate_legacy(s, non_ascii_only, brackets, substitute, fail, rec):
+    """utf8tolatex(), the pylatexenc-1 spelling of the encoder that is still provided and documented: fail_bad_chars is its
+    'fail' policy, substitute_bad_chars its 'replace' policy."""
+    from pylatexenc import latexencode
+    import logging
+    tab = latexencode.utf82latex
+    ns = unicodedata.normalize('NFC', s)
+    rec.monitor('legacy_function_calls')
+    rec.hist('legacy_flags', 'n%d b%d s%d f%d' % (non_ascii_only, brackets, substitute, fail))
+
+    def passes(c):
+        o = ord(c)
+        return (non_ascii_only and o < 127) or o in tab or 32 <= o <= 127 or c in '\n\r\t'
+    lg = logging.getLogger('pylatexenc.latexencode')
+    old = lg.level
+    lg.setLevel(logging.ERROR)
+    try:
+        out = latexencode.utf8tolatex(s, non_ascii_only=non_ascii_only, brackets=brackets,
+                                      substitute_bad_chars=substitute, fail_bad_chars=fail)
+        raised = False
+    except ValueError:
+        raised = True
+    except Exception as e:
+        return 'utf8tolatex raised %s: %s' % (type(e).__name__, e)
+    finally:
+        lg.setLevel(old)
+    must = fail and any(not passes(c) for c in ns)
+    if must != raised:
+        return 'utf8tolatex(fail_bad_chars=%r): ValueError %s although %s' % (
+            fail, 'raised' if raised else 'not raised',
+            ('characters %r have no substitution' % [c for c in ns if not passes(c)]) if must
+            else 'every character has a substitution or is ordinary ASCII (or fail_bad_chars is off)')
+    if raised:
+        rec.monitor('legacy_fail_raised')
+        return None
+    if substitute and not out.isascii():
+        return 'utf8tolatex(substitute_bad_chars=True): output %r is not pure ASCII' % (out,)
+    if brackets and not non_ascii_only and (substitute or all(passes(c) for c in ns)):
+        try:
+            parse(out, tolerant=False)
+        except LatexWalkerParseError as e:
+            return 'utf8tolatex: output %r does not parse in strict mode: %s' % (out, str(getattr(e, 'msg', e))[:100])
+        rec.monitor('legacy_outputs_parsed_strictly')
+    return None
+
+
 def check_case(case, rec):
+    if case.get('what') == 'legacy':
+        err = evaluate_legacy(case['s'], case['non_ascii_only'], case['brackets'], case['substitute'], case['fail'], rec)
+        if err:
+            rec.violation(case, '%s | input %r non_ascii_only=%s brackets=%s substitute_bad_chars=%s fail_bad_chars=%s' % (
+                err, case['s'], case['non_ascii_only'], case['brackets'], case['substitute'], case['fail']), mech='legacy')
+        return
     if case.get('what') == 'module':
         err = evaluate_module(case['s'], case['scheme'], case['policy'], case['non_ascii_only'], rec)
         if err:
@@ -310,6 +363,9 @@ def run_shard(desc, rec):
             rec.case()
             rec.nontrivial((s, case['scheme'], case['policy'], case['non_ascii_only']))
             check_case(case, rec)
+            rec.case()
+            check_case({'what': 'legacy', 's': s, 'non_ascii_only': rng.random() < 0.3, 'brackets': rng.random() < 0.7,
+                        'substitute': rng.random() < 0.5, 'fail': rng.random() < 0.5}, rec)
     elif kind == 'norule':
         # every code point below U+0400 (and a sample above, incl. surrogates, private use, unassigned, astral):
         # the boundary between pass-through ASCII, characters with a rule and characters left to the policy
